@@ -30,10 +30,10 @@ def run(tier, seed=0):
     n4 = vprules.check_points(prog, res, "R02.4-points-validated", FILES, POINT_LEVELS, ALTERNATIVES)
     # R02.5 acceptance
     vprules.check_must(prog, res, "R02.5-accept-only-verified", "bignVerify",
-                       [("s1 < q", FACT("lt", r"order$")), ("hash comparison beltHashStepV2", T("beltHashStepV2(")),
+                       [("s1 < q", FACT("ltc", r"order$")), ("hash comparison beltHashStepV2", T("beltHashStepV2(")),
                         ("public key coordinates reduced (qrFrom x2)", lambda fs: sum(1 for x in fs if x[0] == "field") >= 2)])
     vprules.check_must(prog, res, "R02.5-accept-only-verified", "bignIdVerify",
-                       [("s1 < q", FACT("lt", r"order$")), ("hash comparison beltHashStepV2", T("beltHashStepV2(")),
+                       [("s1 < q", FACT("ltc", r"order$")), ("hash comparison beltHashStepV2", T("beltHashStepV2(")),
                         ("public key coordinates reduced (qrFrom x4)", lambda fs: sum(1 for x in fs if x[0] == "field") >= 4)])
     vprules.check_must(prog, res, "R02.5-accept-only-verified", "bignKeyUnwrap",
                        [("token length test", CMP(False, r"len<")), ("x coordinate reduced (qrFrom)", T("qrFrom(")),
@@ -45,7 +45,7 @@ def run(tier, seed=0):
                        [("coordinates reduced (qrFrom x2)", lambda fs: sum(1 for x in fs if x[0] == "field") >= 2),
                         ("on-curve test", ANY(FACT("oncurve", r"."), T("ecpIsOnA(")))])
     vprules.check_must(prog, res, "R02.5-accept-only-verified", "bignIdExtract",
-                       [("s1 < q", FACT("lt", r"order$")), ("hash comparison", ANY(T("beltHashStepV2("), T("memEq(")))])
+                       [("s1 < q", FACT("ltc", r"order$")), ("hash comparison", ANY(T("beltHashStepV2("), T("memEq(")))])
     res.floor("sampling sites", n1, 4)
     res.floor("private-key loads", n2, 6)
     res.floor("modular call sites", n3, 12)
